@@ -187,7 +187,7 @@ var invalidClasses = []string{
 	"empty_chain", "empty_chain_null",
 	"malformed_epoch_order", "malformed_epoch_equal", "malformed_negative_epoch", "malformed_empty_tipset_key", "malformed_too_long", "malformed_pt_cid_long",
 	"past_instance", "beyond_lookahead", "beyond_lookahead_max",
-	"ts_too_old", "ts_negative", "ts_future", "ts_future_max",
+	"ts_too_old", "ts_negative", "ts_wraparound", "ts_future", "ts_future_max",
 	"base_mismatch", "base_mismatch_epoch_only",
 	"combo_past_and_old",
 }
@@ -451,6 +451,13 @@ func buildInvalid(class string, v view, g *chainGen, wc *wireCodec) *crafted {
 		enc()
 	case "ts_negative":
 		c.ts = -1 - rng.Int63n(1<<40)
+		enc()
+	case "ts_wraparound":
+		// so far in the past that now-ts does not fit an int64
+		c.ts = math.MinInt64 + rng.Int63n(max(v.nowMs, 1)+1)
+		if rng.Intn(3) == 0 {
+			c.ts = math.MinInt64
+		}
 		enc()
 	case "ts_future":
 		c.ts = v.nowMs + 1
